@@ -23,6 +23,8 @@ enum Op {
 const POOLS: [Pool; 5] = [Pool::Cache, Pool::Query, Pool::Recovery, Pool::Schema, Pool::Shared];
 const PCH: [char; 5] = ['c', 'q', 'r', 's', 'h'];
 const PCOQ: [&str; 5] = ["PCache", "PQuery", "PRecovery", "PSchema", "PShared"];
+/// set while the scheduling thread calls BudgetStats (which panics when the counters' sum overflows)
+static EXPECT_PANIC: std::sync::atomic::AtomicBool = std::sync::atomic::AtomicBool::new(false);
 const K: u64 = 1024;
 const M: u64 = 1024 * 1024;
 
@@ -97,7 +99,10 @@ fn run_case(limreq: u64, progs: &[Vec<Op>], sched: &[usize]) -> Run {
             StepOutcome::Blocked => 2,
             StepOutcome::Reached(site) => site as i64,
         };
-        let cnts = catch_unwind(AssertUnwindSafe(|| b.stats()))
+        EXPECT_PANIC.store(true, std::sync::atomic::Ordering::Relaxed);
+        let st = catch_unwind(AssertUnwindSafe(|| b.stats()));
+        EXPECT_PANIC.store(false, std::sync::atomic::Ordering::Relaxed);
+        let cnts = st
             .ok()
             .map(|st| [st.cache_used as u64, st.query_used as u64, st.recovery_used as u64, st.schema_used as u64, st.shared_used as u64]);
         let done = results[t].lock().unwrap().len();
@@ -499,7 +504,7 @@ fn main() {
     // panics of the budget's worker threads are expected observations (overflow checks); a panic of
     // the harness itself must be visible
     std::panic::set_hook(Box::new(|info| {
-        if std::thread::current().name() == Some("main") {
+        if std::thread::current().name() == Some("main") && !EXPECT_PANIC.load(std::sync::atomic::Ordering::Relaxed) {
             eprintln!("c39 harness panic: {}", info);
         }
     }));
